@@ -6,6 +6,7 @@ import (
 	"math"
 	"os"
 	"path/filepath"
+	"sync"
 	"testing"
 	"time"
 
@@ -23,6 +24,9 @@ type C20Case struct {
 	Existing string `json:"existing"` // "" | "garbage" | "whisper"
 	// Skew: seconds by which the library's own clock (whispertool.Now) runs ahead of the command's
 	Skew int64 `json:"skew"`
+	// Rival, when set: a second generate run for the same destination, with this method (1-6, different from the
+	// layout's) and one more point in the last archive, executes at the same time
+	Rival int `json:"rival,omitempty"`
 }
 
 func runC20(c C20Case, ev *Evid) (fs []Finding) {
@@ -43,6 +47,48 @@ func runC20(c C20Case, ev *Evid) (fs []Finding) {
 			return
 		}
 		before, _ = os.ReadFile(path)
+	}
+	if c.Rival != 0 && c.Existing == "" {
+		// two runs race for one destination: whichever creates the file, the other must refuse it
+		rl := Layout{Method: c.Rival, XFF: c.L.XFF, Archives: append([]Arch(nil), c.L.Archives...)}
+		rl.Archives[len(rl.Archives)-1].Points++
+		cmds := []*cmd.GenerateCommand{
+			{Dest: path, Perm: 0644, AggregationMethod: wt.AggregationMethod(c.L.Method), XFilesFactor: c.L.XFF, ArchiveInfoList: wtArchives(c.L), RandMax: c.Max, Fill: c.Fill, TextOut: ""},
+			{Dest: path, Perm: 0644, AggregationMethod: wt.AggregationMethod(rl.Method), XFilesFactor: rl.XFF, ArchiveInfoList: wtArchives(rl), RandMax: c.Max, Fill: c.Fill, TextOut: ""},
+		}
+		errs := make([]error, 2)
+		pms := make([]string, 2)
+		pm := atClock(c.Now, func() {
+			var wg sync.WaitGroup
+			for i := range cmds {
+				wg.Add(1)
+				go func(i int) {
+					defer wg.Done()
+					pms[i] = guard(func() { errs[i] = cmds[i].Execute() })
+				}(i)
+			}
+			wg.Wait()
+		})
+		desc := fmt.Sprintf("two concurrent generate runs now=%d layouts %s / %s fill=%v", c.Now, c.L, rl, c.Fill)
+		if pm != "" || pms[0] != "" || pms[1] != "" {
+			add("generate-panic", "%s: panicked: %s %s %s", desc, pm, pms[0], pms[1])
+			return
+		}
+		if errs[0] == nil && errs[1] == nil {
+			add("overwrote-existing", "%s: both reported success - one of them replaced the file the other had created", desc)
+			return
+		}
+		b, _ := os.ReadFile(path)
+		for i, l := range []Layout{c.L, rl} {
+			if errs[i] == nil {
+				if want := EncodeLayoutHeader(l); len(b) < len(want) || !bytes.Equal(b[:len(want)], want) || int64(len(b)) != l.FileSize() {
+					add("header", "%s: run %d reported success but the file (%d bytes) does not have its layout", desc, i, len(b))
+					return
+				}
+			}
+		}
+		ev.Count(HashJSON(c), true, "rival-run")
+		return nil
 	}
 	gc := &cmd.GenerateCommand{Dest: path, Perm: 0644, AggregationMethod: wt.AggregationMethod(c.L.Method), XFilesFactor: c.L.XFF, ArchiveInfoList: wtArchives(c.L), RandMax: c.Max, Fill: c.Fill, TextOut: ""}
 	libClockSkew = time.Duration(c.Skew) * time.Second
@@ -191,6 +237,8 @@ func TestC20(t *testing.T) {
 			c.Skew = rapid.SampledFrom([]int64{0, 1, 1, l.Archives[0].Step, l.Archives[len(l.Archives)-1].Step, 61}).Draw(t, "skew")
 			if rapid.IntRange(0, 7).Draw(t, "existing") == 0 {
 				c.Existing = rapid.SampledFrom([]string{"garbage", "whisper"}).Draw(t, "existingKind")
+			} else if rapid.IntRange(0, 7).Draw(t, "rival") == 0 {
+				c.Rival = 1 + l.Method%6
 			}
 			return c
 		},
